@@ -600,9 +600,7 @@ func (ref *Node) newContainerHandler() (reflectContainer, error) {
 	src := reflect.ValueOf(ref.Object)
 	k := src.Kind()
 	if k == reflect.Map {
-		return &mapAsContainer{
-			src: src,
-		}, nil
+		return newMapAsContainer(ref, src), nil
 	}
 	if k == reflect.Struct || (k == reflect.Pointer && src.Elem().Kind() == reflect.Struct) {
 		return newStructAsContainer(ref, src), nil
